@@ -138,6 +138,15 @@ fn check_tree(run: &mut Run, rng: &mut Rng, tree: &Tree, profile: &Profile, know
                     run.fail("sampled-node-not-one-child", &at, "1", &format!("{}", children.len()));
                 } else if !menu.contains(&kid_edges[0]) {
                     run.fail("sampled-child-off-menu", &at, &format!("{menu:?}"), &format!("{:?}", kid_edges[0]));
+                } else if node.player() != Player::chance() && i % 3 == 0 {
+                    // the opponent's child is the one Profile::explore_one draws (its PRNG is
+                    // seeded by (epoch, bucket), so the draw can be replayed on the same profile)
+                    run.spec_checked += 1;
+                    let again = profile.explore_one(encoder.branches(node), node);
+                    if again.len() != 1 || *again[0].edge() != kid_edges[0] {
+                        run.fail("opponent-child-not-drawn-by-explore-one", &at, &format!("{:?}", again.iter().map(|b| *b.edge()).collect::<Vec<_>>()), &format!("{:?}", kid_edges[0]));
+                    }
+                    run.count("opponent-draw-replayed");
                 }
             }
         }
@@ -232,7 +241,7 @@ fn main() {
     let mut rng = Rng::new(a.seed);
     let mut run = Run::new(&a.out);
     quiet_panics();
-    let (epochs, batch, max_dump, freq_nodes, freq_draws) = if a.thorough() { (40usize, 6usize, 6000usize, 40usize, 4000usize) } else { (10, 3, 2500, 10, 1500) };
+    let (epochs, batch, max_dump, freq_nodes, freq_draws) = if a.thorough() { (40usize, 6usize, 8000usize, 40usize, 4000usize) } else { (14, 4, 5000, 12, 1500) };
     run.rule = format!(
         "{epochs} training epochs x {batch} trees from the real Blueprint::tree (empty profile at start, stand-in abstraction, traverser alternating, profile updated as Blueprint::solve does); every node of every tree goes through the clause-by-clause oracle; trees up to {max_dump} nodes are dumped for the Lean acceptor; opponent sampling: {freq_nodes} opponent nodes x {freq_draws} epochs through the real explore_one, chi-square 6 sigma; actionize's f32 product checked for every pot <= 2*STACK x every grid odds. distinct = (tree, node)"
     );
@@ -335,5 +344,15 @@ fn main() {
         p.next();
     }
     run.notes.push("deals come from the code's own thread_rng (every third tree: forced draw index from VERIF_SEED); each dumped tree is self-contained in ops.txt".into());
+    // truncate long samples (tree dumps) so that the evidence stays readable
+    for s in run.samples.iter_mut() {
+        if s.len() > 400 {
+            let cut = (0..=400).rev().find(|&i| s.is_char_boundary(i)).unwrap_or(0);
+            let tail = s[s.len().saturating_sub(60)..].to_string();
+            s.truncate(cut);
+            s.push_str(" … ");
+            s.push_str(&tail);
+        }
+    }
     run.finish();
 }
